@@ -33,7 +33,7 @@ ORACLE = ("byte snapshots (NumPy buffers, Arrow buffers, index, categorical code
           "and the repeated call equals a saved copy of the first result")
 ASSUMPTIONS = ["results that are read-only and refuse in-place edits are counted as 'not writable' (nothing to corrupt)"]
 
-EXTRA = ("groups", "key_count", "factorize_2d", "crosstab", "subset_ratio")
+EXTRA = ("groups", "key_count", "factorize_2d", "crosstab", "subset_ratio", "quantile_scalar_frame", "median_frame")
 
 
 def snapshot(obj):
@@ -198,7 +198,7 @@ def history(draw, variant):
             step["mask"] = draw(S.mask_spec(n, kinds=("bool",)))
             step["mask2"] = draw(S.mask_spec(n, kinds=("bool",)))
             step["mc"] = draw(st.sampled_from(["np", "series"]))
-        elif op == "crosstab":
+        elif op in ("crosstab", "quantile_scalar_frame", "median_frame"):
             step["vals"] = draw(S.value_column(n, dtypes=("float64",), regime="exact"))
         steps.append(step)
     return {"n": n, "keys": keys, "kc": kc, "layout": layout, "steps": steps, "sort": draw(st.sampled_from([True, False])),
@@ -237,6 +237,11 @@ def run_op(gb, keys_objs, step, case, values, mask, mask2=None):
         return dict(gb.groups)
     if op == "key_count":
         return gb.key_count
+    if op == "quantile_scalar_frame":
+        # two value columns and a scalar q: the frame-shaped result of the apply route
+        return gb.quantile({"a": values, "b": values}, q=0.5)
+    if op == "median_frame":
+        return gb.median({"a": values, "b": values})
     if op == "factorize_2d":
         ks = keys_objs if len(keys_objs) > 1 else [keys_objs[0], keys_objs[0]]
         return F.factorize_2d(*ks, factorize_in_parallel=not any(isinstance(k, pl.Series) for k in ks))
@@ -266,6 +271,7 @@ def check(case, ctx):
             raise Rejected(row)
         raise
     labels0 = labels_from_index(gb.result_index)
+    names0 = list(gb.result_index.names)
     ctx.seen("history", case, case["kc"] != "np" or len(case["steps"]) >= 2 or any(s.get("vc", "np") != "np" for s in case["steps"]),
              [f"kc:{case['kc']}", f"layout:{case['layout']}", f"steps:{len(case['steps'])}"] + [f"op:{s['op']}" for s in case["steps"]] +
              [f"vc:{s.get('vc')}" for s in case["steps"] if "vc" in s])
@@ -300,6 +306,8 @@ def check(case, ctx):
             raise Violation(f"input-modified:{step['op']}", f"{what}: an input container changed during the call")
         if logical_codes(gb).tolist() != codes0 or labels_from_index(gb.result_index) != labels0:
             raise Violation(f"grouping-modified:{step['op']}", f"{what}: logical codes / labels changed")
+        if list(gb.result_index.names) != names0:
+            raise Violation(f"grouping-index-renamed:{step['op']}", f"{what}: the grouping's label index is now named {list(gb.result_index.names)} (was {names0})")
         # aliasing probes
         internal = []
         ik = gb.group_ikey
@@ -325,6 +333,9 @@ def check(case, ctx):
             raise Violation(f"write-through-to-input:{step['op']}", f"{what}: overwriting the returned result changed an input")
         if logical_codes(gb).tolist() != codes0 or labels_from_index(gb.result_index) != labels0:
             raise Violation(f"write-through-to-grouping:{step['op']}", f"{what}: overwriting the returned result changed the grouping's codes / labels")
+        if list(gb.result_index.names) != names0:
+            raise Violation(f"grouping-index-renamed:{step['op']}", f"{what}: the grouping's label index is now named {list(gb.result_index.names)} (was {names0}): "
+                                                                    "a result shares the grouping's own Index object")
         if saved is not None:
             res2 = run_op(gb, keys_objs, step, case, values, mask, mask2)
             try:
@@ -377,7 +388,18 @@ def fn_case(draw, variant):
     vc = draw(st.sampled_from(["np", "np_view", "series"])) if not fn.startswith(("group_", "nb_", "nan")) else draw(st.sampled_from(["np", "np_view"]))
     return {"n": n, "fn": fn, "vals": draw(S.value_column(n, dtypes=(dt,), regime="exact", null_modes=["none", "none", "some"])), "vc": vc,
             "codes": draw(st.lists(st.integers(-1, 2), min_size=n, max_size=n)), "adjust": draw(st.booleans()),
-            "mask": draw(st.one_of(st.none(), st.lists(st.booleans(), min_size=n, max_size=n))), "nt": draw(st.sampled_from([1, 1, 2]))}
+            "mask": draw(st.one_of(st.none(), st.lists(st.booleans(), min_size=n, max_size=n))), "nt": draw(st.sampled_from([1, 1, 2])),
+            "tmode": draw(st.sampled_from(["ordered", "ordered", "late_stamp", "nat"]))}
+
+
+def _fn_times(case, n):
+    t = 10**18 + np.arange(n, dtype=np.int64) * 10**9
+    mode = case.get("tmode", "ordered")
+    if mode == "late_stamp" and n >= 2:
+        t[n // 2] = t[0] - 5 * 10**9  # a stamp earlier than its predecessor
+    elif mode == "nat" and n >= 2:
+        t[n // 2] = np.iinfo(np.int64).min
+    return t.view("M8[ns]")
 
 
 def fn_check(case, ctx):
@@ -385,13 +407,13 @@ def fn_check(case, ctx):
     v, base = render_value_obj({"vals": case["vals"], "vc": case["vc"]}, n)
     A = {"v": v, "codes": np.array(case["codes"], dtype=np.int64), "adjust": case["adjust"],
          "m": None if case["mask"] is None else np.array(case["mask"], dtype=bool), "nt": min(case["nt"], n),
-         "t": (10**18 + np.arange(n, dtype=np.int64) * 10**9).view("M8[ns]"),
+         "t": _fn_times(case, n),
          "vec": np.arange(1.0, 4.0), "mat": None, "bools": None}
     fl = np.asarray(pd.Series(np.asarray(v)).astype("float64").fillna(0.0))
     A["mat"] = np.column_stack([fl, fl * 2, fl + 1])
     A["bools"] = pd.DataFrame({"a": fl > 0, "b": fl < 0})
     f = _fn_table()[fn]
-    ctx.seen("functions", case, case["vc"] != "np" or case["adjust"] is False, [f"fn:{fn}", f"fvc:{case['vc']}", f"fdtype:{case['vals']['dtype']}", f"adjust:{case['adjust']}"])
+    ctx.seen("functions", case, case["vc"] != "np" or case["adjust"] is False, [f"fn:{fn}", f"fvc:{case['vc']}", f"fdtype:{case['vals']['dtype']}", f"adjust:{case['adjust']}", f"tmode:{case.get('tmode')}"])
     names = ("v", "codes", "m", "t", "vec", "mat", "bools")
     snaps = tuple(snapshot(A[k]) for k in names) + (snapshot(base),)
     res = f(A)
